@@ -421,6 +421,33 @@ impl Monitor for C13 {
                     }
                 }
             }
+            PmMsg::ExecuteSwapOperations { operations, minimum_receive: None, receiver, .. } if !operations.is_empty() => {
+                // the 50% cap holds on routes as on direct swaps: 50%, 70% and 100% decide alike, and
+                // a larger tolerance never refuses what a smaller one accepts
+                let snap = c.w.snapshot();
+                let mut oks = vec![];
+                for t in ["0.01", "0.5", "0.7", "1"] {
+                    c.w.restore(&snap);
+                    c.stats.forks += 1;
+                    let o = c.exec_op(
+                        &Op::Pm {
+                            sender: sender.clone(),
+                            msg: PmMsg::ExecuteSwapOperations { operations: operations.clone(), minimum_receive: None, receiver: receiver.clone(), max_slippage: Some(dec(t)) },
+                            funds: funds.clone(),
+                        },
+                        None,
+                    );
+                    oks.push(o.ok());
+                }
+                c.w.restore(&snap);
+                c.stats.bump("probe.c13.route_tolerance_metamorphic");
+                if oks[1] != oks[2] || oks[1] != oks[3] {
+                    return Err(viol("C13.tolerance_cap", format!("route of {} hops offering {:?}: 50% -> {}, 70% -> {}, 100% -> {}", operations.len(), funds, oks[1], oks[2], oks[3])));
+                }
+                if oks[0] && !oks[1] {
+                    return Err(viol("C13.tolerance_not_monotone", format!("route of {} hops offering {:?}: accepted under 1% but refused under 50%", operations.len(), funds)));
+                }
+            }
             PmMsg::ExecuteSwapOperations { operations, minimum_receive: Some(m), receiver, max_slippage } => {
                 // minimum_receive: decided exactly against the same route without a minimum
                 let snap = c.w.snapshot();
